@@ -14,3 +14,5 @@ package sessions
 //@     && ret1 == ret1(NewRedisSessionStore) && arg(NewRedisSessionStore, 1) == cookieOpts && !called(NewCookieSessionStore)
 //@ ensures[unknown-type-is-an-error] old(opts.Type) != options.CookieSessionStoreType && old(opts.Type) != options.RedisSessionStoreType ==> ret1 != nil && ret0 == nil
 //@ requires[config:store-type-names-distinct] options.CookieSessionStoreType != options.RedisSessionStoreType
+//@ prop C19 C01 C13
+//@ ensures[nonnil:a-store-or-an-error] ret1 == nil ==> ret0 != nil
